@@ -766,7 +766,8 @@ run_prog(void)
             // poll acquire_get_state until the runtime no longer reports Running (a client waiting for a finite
             // acquisition to finish by itself, without calling stop), then report the state seen
             int st = (int)acquire_get_state(rt);
-            for (int j = 0; j < 4000 && st == DeviceState_Running; j++) {
+            // (no give-up: a finite acquisition ends; one that does not is reported by the scheduler's hang oracle)
+            for (long j = 0; j < 2000000 && st == DeviceState_Running; j++) {
                 vs_yield_low("client_pollstate");
                 st = (int)acquire_get_state(rt);
             }
